@@ -148,6 +148,134 @@ def run_hist(case, tmp=None):
             "repeat": rep[:2], "mutated": mutated}
 
 
+def mk_rm_forms(cfg):
+    """rm_conf as a user's file-content-redaction.yaml gives it: 'patterns' as a plain list or as {'regex': [...]}"""
+    rm = {}
+    if cfg["keywords"] is not None:
+        rm["keywords"] = list(cfg["keywords"])
+    if cfg["patterns"]:
+        rm["patterns"] = {"regex": list(cfg["patterns"])} if cfg.get("patterns_form") == "regex" else list(cfg["patterns"])
+    return rm
+
+
+def deep_snap(x):
+    """value WITH types and order (a list turned into a tuple, a dict into a list, a re-ordered dict all show)"""
+    if isinstance(x, dict):
+        return ["dict:" + type(x).__name__, [[deep_snap(k), deep_snap(v)] for k, v in x.items()]]
+    if isinstance(x, (list, tuple)):
+        return [type(x).__name__, [deep_snap(v) for v in x]]
+    if isinstance(x, (set, frozenset)):
+        return [type(x).__name__, sorted(repr(v) for v in x)]
+    if x is None or isinstance(x, (bool, int, float, str)):
+        return [type(x).__name__, x]
+    return ["object", type(x).__name__]
+
+
+def container_ids(x, path, out):
+    """identity of every nested container by its path"""
+    if isinstance(x, dict):
+        out[path] = id(x)
+        for k, v in x.items():
+            container_ids(v, "%s[%r]" % (path, k), out)
+    elif isinstance(x, (list, tuple)):
+        out[path] = id(x)
+        for n, v in enumerate(x):
+            container_ids(v, "%s[%d]" % (path, n), out)
+    return out
+
+
+def run_conf(case, tmp):
+    """FRESH CLEANERS FROM THE SAME CONFIGURATION OBJECTS: cleaner #1 and #2 are built one after the other from ONE InsightsConfig,
+    ONE rm_conf dict ('patterns' plain or {'regex': [...]}, 'keywords'), one fqdn string and the same per-spec no_obfuscate lists /
+    allow-list dicts / content lists, cleaner #3 from a deep copy taken before anything was built. After construction and after
+    every clean_content / clean_file / generate_report the objects are compared - value, types, order, identity of the nested
+    containers - with their state before; the three cleaners must give the same outputs, mappings, file and reports."""
+    cfg = case["cfg"]
+    c09.CURRENT_REAL_NAME[0] = cfg["fqdn"]
+
+    def objects():
+        return {"config": mk_conf(cfg), "rm_conf": mk_rm_forms(cfg), "fqdn": "".join(list(cfg["fqdn"])),
+                "allowlist": dict((name, dict((k, v) for k, v in items)) for name, items in case["allowlists"].items()),
+                "content": [list(c["lines"]) for c in case["calls"]],
+                "no_obfuscate": [list(c["no_obfuscate"]) for c in case["calls"]]}
+    objs = objects()
+    copy_objs = copy.deepcopy(dict((k, v) for k, v in objs.items() if k != "config"))
+    copy_objs["config"] = mk_conf(cfg)
+
+    def snap(o):
+        d = dict((k, deep_snap(v)) for k, v in o.items() if k != "config")
+        d["config"] = deep_snap(dict(vars(o["config"])))
+        return d
+
+    def idents(o):
+        out = {"fqdn": id(o["fqdn"])}
+        for k in ("rm_conf", "allowlist", "content", "no_obfuscate"):
+            container_ids(o[k], k, out)
+        return out
+    mutated = []
+
+    def run_one(o, label):
+        s0, i0 = snap(o), idents(o)
+
+        def check(where):
+            s1, i1 = snap(o), idents(o)
+            for k in s0:
+                if s1[k] != s0[k] and len(mutated) < 4:
+                    mutated.append("cleaner %s, %s: the caller's %s changed from %s to %s" % (label, where, k, js(s0[k])[:300], js(s1[k])[:300]))
+            moved = sorted(k for k in i0 if i1.get(k, i0[k]) != i0[k])
+            if moved and len(mutated) < 4:
+                mutated.append("cleaner %s, %s: nested containers of the caller's objects were replaced by other objects: %s" % (
+                    label, where, ", ".join(moved)[:300]))
+        try:
+            cl = Cleaner(o["config"], o["rm_conf"], o["fqdn"])
+        except Exception as e:
+            return {"construction": "<exception %s>" % type(e).__name__}
+        check("after Cleaner(...)")
+        outs, maps = [], []
+        for i, c in enumerate(case["calls"]):
+            al = o["allowlist"][c["allow"]] if c["allow"] is not None else None
+            try:
+                r = cl.clean_content(o["content"][i], no_obfuscate=o["no_obfuscate"][i], no_redact=bool(c["no_redact"]), allowlist=al)
+                r = list(r) if isinstance(r, list) and all(isinstance(x, str) for x in r) else ["<shape %s>" % type(r).__name__]
+            except Exception as e:
+                r = ["<exception %s>" % type(e).__name__]
+            outs.append(r)
+            maps.append(maps_json(cl))
+            check("after clean_content call %d" % i)
+        res = {"outs": outs, "maps": maps}
+        d = tempfile.mkdtemp(prefix="conf_", dir=tmp)
+        try:
+            last = len(case["calls"]) - 1
+            path = os.path.join(d, "spec")
+            with open(path, "w", encoding="utf-8", newline="") as fh:
+                fh.write("".join(l + "\n" for l in o["content"][last]))
+            try:
+                cl.clean_file(path, no_obfuscate=o["no_obfuscate"][last], no_redact=bool(case["calls"][last]["no_redact"]))
+                res["file"] = open(path, encoding="utf-8").read() if os.path.isfile(path) else None
+            except Exception as e:
+                res["file"] = "<exception %s>" % type(e).__name__
+            check("after clean_file")
+            fails = []
+            cl.rhsm_facts_file = os.path.join(d, "facts.json")
+            rep = c09.take_report(cl, cfg, d, "arch", lambda desc, kind, m, finding=None: fails.append(desc), {})
+            res["report"] = json.loads(json.dumps(rep))
+            res["report_fails"] = fails[:2]
+            check("after generate_report")
+        finally:
+            shutil.rmtree(d, ignore_errors=True)
+        return res
+    r1 = run_one(objs, "#1")
+    r2 = run_one(objs, "#2 (built from the same objects after #1 was used)")
+    r3 = run_one(copy_objs, "#3 (built from a deep copy of the original configuration)")
+    rep = []
+    if r2 != r1:
+        rep.append("cleaner #2, built from the SAME configuration objects after #1, gives %s where #1 gave %s" % (js(r2)[:500], js(r1)[:500]))
+    if r3 != r1:
+        rep.append("a cleaner built from a deep COPY of the original configuration gives %s where #1 gave %s" % (js(r3)[:500], js(r1)[:500]))
+    return {"outs": r1.get("outs"), "maps": r1.get("maps"), "report": r1.get("report"), "file": r1.get("file"),
+            "construction": r1.get("construction"), "report_fails": r1.get("report_fails") or [], "repeat": rep[:2], "mutated": mutated}
+
+
 def run_glue(case, tmp):
     """real specs: filters through add_filter(max_match), providers through the datasource, write() through the glue"""
     cfg = case["cfg"]
@@ -516,6 +644,8 @@ def run_case(case, tmp, pristine=None):
         return run_file(case, tmp)
     if case["kind"] == "hist":
         return run_hist(case, tmp)
+    if case["kind"] == "conf":
+        return run_conf(case, tmp)
     if case["kind"] == "glue":
         return run_glue(case, tmp)
     cl = c09.mk_cleaner(case["cfg"])
@@ -770,7 +900,31 @@ def glue_allow(case):
     return al
 
 
+POSIX_CLASSES = {"[[:digit:]]": "[0-9]", "[[:xdigit:]]": "[A-Fa-f0-9]", "[[:alpha:]]": "[a-zA-Z]", "[[:upper:]]": "[A-Z]"}
+
+
+def conf_as_hist(case):
+    """a `conf` case for the model: pattern redaction is the FIRST step and a redacted line changes no database, so the case
+    equals the history on the lines that survive redaction, cleaned without patterns. Which lines survive is stated here:
+    plain form = substring test, regex form = re.search of the expression with the documented POSIX classes spelled out."""
+    cfg = case["cfg"]
+
+    def hit(p, line):
+        if cfg.get("patterns_form") == "regex":
+            for k, v in POSIX_CLASSES.items():
+                p = p.replace(k, v)
+            return re.search(p, line) is not None
+        return p in line
+    calls = []
+    for c in case["calls"]:
+        keep = [l for l in c["lines"] if not l or c["no_redact"] or not any(hit(p, l) for p in cfg["patterns"])]
+        calls.append(dict(c, lines=keep))
+    return dict(case, kind="hist", cfg=dict(cfg, patterns=[]), calls=calls)
+
+
 def model_lines(case):
+    if case["kind"] == "conf":
+        return model_lines(conf_as_hist(case))
     kind = case["kind"]
     if kind == "entry":
         loaded = case.get("_loaded") or []
@@ -840,6 +994,8 @@ def model_maps(ans):
 
 
 def model_result(case, ans):
+    if case["kind"] == "conf":
+        return model_result(conf_as_hist(case), ans)
     """ans = the driver's answers to model_lines(case)"""
     kind = case["kind"]
     if kind == "entry":
@@ -879,7 +1035,7 @@ def tie_view(case, res):
         return {"string": res["string"], "smaps": res["smaps"]}
     if kind == "entry":
         return {"write": res["write"], "stored": res["stored"]}
-    if kind == "hist":
+    if kind in ("hist", "conf"):
         return {"outs": res["outs"], "maps": res["maps"], "report": res.get("report")}
     if kind == "glue":
         return {"stored": res["stored"], "maps": res["maps"]}
@@ -996,12 +1152,14 @@ def order_violation(case, res):
         if out and out[0] == c09.RAISED:
             return None
         return subsequence_violation(res["c2"], out)
-    if kind in ("hist", "glue"):
+    if kind == "conf" and res.get("construction"):
+        return "Cleaner(config, rm_conf, fqdn) failed on a valid configuration: %s" % res["construction"]
+    if kind in ("hist", "glue", "conf"):
         if res["mutated"]:
             return res["mutated"][0]
         if res["repeat"]:
             return "the same cleaning repeated in a fresh Cleaner differs from the first: " + res["repeat"][0]
-    if kind == "hist":
+    if kind in ("hist", "conf"):
         if res.get("report_fails"):
             return "the report does not say what mapping() says: " + res["report_fails"][0]
         for c, out in zip(case["calls"], res["outs"]):
@@ -1074,7 +1232,7 @@ def case_lines(case):
         return case["text"][:2000].split("\n")
     if case["kind"] == "echo":
         return case["lines"]
-    if case["kind"] == "hist":
+    if case["kind"] in ("hist", "conf"):
         return [l for c in case["calls"] for l in c["lines"]]
     if case["kind"] == "glue":
         return [l for f in case["files"] for l in f["lines"]]
@@ -1226,8 +1384,43 @@ def gen_entries(rng, n):
     return [json.loads(json.dumps(c)) for c in pick]
 
 
+REGEX_PATTERNS = ["D.OP", "DR[O]P$", "l[i]nk", r"\bup\b", "pass(word)?=", "^@1@", "@[[:digit:]]@ [[:alpha:]]", "[[:xdigit:]]{2}(:[[:xdigit:]]{2}){5}",
+                  "10\\.230\\.230\\.[13]", "(www|mail)\\.db", "DROP|link"]
+PLAIN_PATTERNS = ["DROP", "link", "@1@", "password=", " up", "10.230.230.", "www.db"]
+
+
+def gen_conf(rng, i):
+    """a history for cleaners built one after the other from the SAME configuration objects: 'patterns' in both forms with
+    duplicates and blanks, regex expressions that do not occur literally in the text, keyword lists sorted by no obvious key"""
+    c = gen_hist(rng, i)
+    c["kind"] = "conf"
+    cfg = c["cfg"]
+    form = "regex" if rng.random() < 0.6 else "plain"
+    pats = rng.sample(REGEX_PATTERNS if form == "regex" else PLAIN_PATTERNS, rng.choice([1, 2, 2, 3]))
+    if rng.random() < 0.4:
+        pats.insert(rng.randrange(len(pats) + 1), rng.choice(pats))                  # a duplicate
+    if rng.random() < 0.25:
+        pats.insert(rng.randrange(len(pats) + 1), rng.choice(["   ", "\t\t", "  x  "]))  # blanks
+    if rng.random() < 0.15:
+        pats = []
+    cfg["patterns"], cfg["patterns_form"] = pats, form
+    kws = rng.sample(KW_POOL, rng.choice([3, 4, 5]))
+    for _ in range(30):
+        if all(kws != sorted(kws, key=f) and kws != sorted(kws, key=f, reverse=True) for f in (str, str.lower, len)):
+            break
+        rng.shuffle(kws)
+    if rng.random() < 0.3:
+        kws.insert(rng.randrange(len(kws) + 1), " " + rng.choice(kws) + " ")        # a padded duplicate
+    cfg["keywords"] = kws if rng.random() < 0.85 else None
+    for call in c["calls"]:
+        call["lines"] = [l + rng.choice(["", "", " DROP", " link", " up", " password=x", " www.db"]) if l else l for l in call["lines"]]
+    return c
+
+
 def gen_any(rng, i):
     k = rng.random()
+    if k < 0.06:
+        return gen_conf(rng, i)
     if k < 0.08:
         return gen_seam(rng, i)
     if k < 0.16:
@@ -1350,6 +1543,9 @@ def run(chk):
         chk.count("kind:" + c["kind"])
         r0 = res[seeds[0]][i]
         fid = finding_of(c)
+        if c["kind"] == "conf":
+            chk.count("conf:patterns=%s%s" % (c["cfg"].get("patterns_form"), "" if c["cfg"]["patterns"] else "(none)"))
+            chk.count("conf:lines-redacted", sum(len(a["lines"]) - len(b["lines"]) for a, b in zip(c["calls"], conf_as_hist(c)["calls"])))
         if c["kind"] == "hist":
             chk.count("hist:calls=%d" % len(c["calls"]))
             chk.count("hist:new-items-per-line>=2", sum(1 for l in case_lines(c) if l))
